@@ -243,9 +243,11 @@ PROPS = {
                         "termination of type_name's and limited_string's loops; that limited_string's characters are name characters"],
     },
     "C33": {
-        "level": "proof",
-        "verus": ["smith_response", "smith_collect", "smith_concrete", "smith_keys", "execution"],
-        "explanation": "KERNELS. Unit smith_keys: ResponseBuilder::selection_set, unless a custom generator takes over, returns an object with EXACTLY the response keys collect_fields returned for the chosen concrete type, in that order, "
+        "level": "other",
+        "verus": ["smith_response", "smith_collect", "smith_concrete", "smith_keys", "smith_lists", "execution"],
+        "explanation": "KERNELS, ONE KNOWN FINDING (level `other`: one obligation fails on the unchanged tree and is listed in known_findings.json). Unit smith_lists: ResponseBuilder::generate_field_value returns, for a field whose type has at most one list level, "
+                       "a list exactly when the type is a list type (given that the four generators it calls return flat values / lists of flat values); for a type with NESTED lists the clause `nested_list_types_get_nested_lists` FAILS: `[[Int!]!]!` gets a flat list -- the known finding. "
+                       "Unit smith_keys: ResponseBuilder::selection_set, unless a custom generator takes over, returns an object with EXACTLY the response keys collect_fields returned for the chosen concrete type, in that order, "
                        "and `__typename` is that concrete type. Unit smith_concrete: ResponseBuilder::concrete_type chooses, for a union, one of its members; for an interface, an OBJECT type of the schema that implements it (the interface itself only when the count of such types is 0); "
                        "otherwise the type itself (the two scans keep their predicates as closure bodies; that the second scan finds the idx-th entry the first one counted is an explicit assumption). ResponseBuilder::type_condition_matches, the test that decides which fragments contribute response keys for the chosen concrete object type. Verus proves on the extracted body, for every schema, "
                        "object type and type condition, that it equals the spec's DoesFragmentTypeApply -- the same specification function (shared text) against which the executor's does_fragment_type_apply is proved (unit execution, C26): "
